@@ -26,14 +26,7 @@ ASSUMPTIONS = [
 ]
 
 
-class Color(Enum):
-    RED = 1
-    BLUE = 'b'
-
-
-class Inner(Schema):
-    x: int
-    y: str = ''
+from vt.values import Color, Inner  # noqa
 
 
 class Outer(Schema):
@@ -102,111 +95,7 @@ GROUPS = {
     'dataclass': ['Inner', 'Outer', 'Strict', 'Collecting'],
 }
 
-V_NUM = ['', '0', '1', '-3', '1.5', '1e3', ' 2 ', 'abc', 'inf', '-inf', 'nan', 'true', 'null', '٣', '1_0', '0x10', '1e400']
-V_STRUCT = ['[1,2]', '{"a":1}', 'a,b', 'a=1&b=2', '()', '[', '{"a":', '[1,"x"]', '{"x":1}', '{"x":"q"}', '1;2']
-V_TIME = ['2022-03-04', '2022-03-04 10:11:12', '2022-03-04T10:11:12Z', '2022-13-45', '10:11:12', '25:00', 'P1D', 'PT1.5S',
-          '1 day, 0:00:10', '2022-03-04 10:11:12 -0800', '2022-03-04T10:11:12+08:00', 'Fri, 04 Mar 2022 10:11:12 GMT', 'P',
-          '99999999999999999999', '-1e20']
-INTS = [0, 1, -1, 7, -3, 10, 255, 2 ** 31, 10 ** 20, -10 ** 20, 2 * 10 ** 10, 253402300800]
-FLOATS = [0.0, 1.5, -2.5, float('inf'), float('-inf'), float('nan'), 1e30, -1e30, 2e10, 1e308, 5e-324]
-BYTES = [b'', b'7', b'\xff', b'[1]', bytearray(b'5'), memoryview(b'3')]
-
-
-class Weird:
-    pass
-
-
-class BadStr:
-    def __str__(self):
-        raise RuntimeError('no str')
-
-
-def hostile(i):
-    """fresh hostile object number i (fresh: iterators are consumed)"""
-    return [
-        lambda: object(), lambda: Weird, lambda: Weird(), lambda: iter([1, 'x']), lambda: (i for i in (1, 2)),
-        lambda: Decimal('Infinity'), lambda: Decimal('NaN'), lambda: Decimal('sNaN'), lambda: 10 ** 400, lambda: -10 ** 400,
-        lambda: complex(1, 2), lambda: Color.RED, lambda: date(2020, 1, 2), lambda: datetime(2020, 1, 2, 3, 4, 5),
-        lambda: timedelta(days=1), lambda: time(1, 2), lambda: uuid.UUID(int=5), lambda: collections.deque([1, 'x']),
-        lambda: collections.OrderedDict(a=1), lambda: range(3), lambda: Inner(x=1), lambda: BadStr(), lambda: Ellipsis,
-        lambda: NotImplemented, lambda: int, lambda: len, lambda: {1, 'x'}, lambda: frozenset([None]), lambda: Decimal('1.50'),
-        lambda: Decimal('1E+400'),
-    ][i]()
-
-
-N_HOSTILE = 30
-
-
-def atom(V, name, allow_sym_str=False, sym_int=True):
-    k = V.pick(name + '_k', ['int', 'bool', 'none', 'float', 'num', 'struct', 'time', 'bytes', 'obj'] + (['str'] if allow_sym_str else []))
-    if k == 'int':
-        if sym_int and V.bool(name + '_sym'):
-            return V.int(name, -1000, 1000)
-        return V.pick(name + '_i', INTS)
-    if k == 'bool':
-        return V.bool(name + '_b')
-    if k == 'none':
-        return None
-    if k == 'float':
-        return V.pick(name + '_f', FLOATS)
-    if k == 'num':
-        return V.pick(name + '_s', V_NUM)
-    if k == 'struct':
-        return V.pick(name + '_s', V_STRUCT)
-    if k == 'time':
-        return V.pick(name + '_s', V_TIME)
-    if k == 'bytes':
-        return V.pick(name + '_y', BYTES)
-    if k == 'str':
-        return V.str(name + '_t', 2)
-    return hostile(V.pick(name + '_o', list(range(N_HOSTILE))))
-
-
-def small_atom(V, name, sym_int=True):
-    """cheaper atom for container elements"""
-    k = V.pick(name + '_k', ['int', 'bad', 'none', 'num', 'obj', 'list', 'dict'])
-    if k == 'int':
-        return V.int(name, -3, 3) if sym_int else V.pick(name + '_i', [0, 1, -3, 3, 2 * 10 ** 10])
-    if k == 'bad':
-        return 'x'
-    if k == 'none':
-        return None
-    if k == 'num':
-        return V.pick(name + '_s', ['5', '1.5', '', 'inf'])
-    if k == 'list':
-        return V.pick(name + '_l', [[], [1], ['x'], [1, 2], [[1]], [None]])
-    if k == 'dict':
-        return V.pick(name + '_d', [{}, {'x': 1}, {'x': 'q'}, {'a': 1}, {1: [2]}, {'x': 1, 'zz': 2}])
-    return hostile(V.pick(name + '_o', [0, 3, 5, 8, 17, 20, 21]))
-
-
-def value(V, sym_int=True):
-    shape = V.pick('shape', ['atom', 'list', 'tuple', 'set', 'dict', 'deque', 'iter'])
-    if shape == 'atom':
-        return atom(V, 'x', allow_sym_str=sym_int, sym_int=sym_int)
-    n = V.pick('n', [0, 1, 2, 3])
-    if shape == 'dict':
-        d = {}
-        for i in range(min(n, 2)):
-            k = V.pick('key%d' % i, ['x', 'a', 'inner', '', 1, None, (1, 2), 'b', 'c', 'd'])
-            d[k] = small_atom(V, 'v%d' % i, sym_int)
-        return d
-    xs = []
-    for i in range(n):
-        e = small_atom(V, 'e%d' % i, sym_int)
-        xs.append(e)
-    if shape == 'list':
-        return xs
-    if shape == 'tuple':
-        return tuple(xs)
-    if shape == 'deque':
-        return collections.deque(xs)
-    if shape == 'iter':
-        return iter(xs)
-    try:
-        return set(xs)
-    except TypeError:
-        return xs
+from vt.values import (BYTES, FLOATS, INTS, N_HOSTILE, V_NUM, V_STRUCT, V_TIME, atom, hostile, small_atom, value)  # noqa
 
 
 def call_checked(V, label, fn, *a, **k):
